@@ -137,7 +137,8 @@ def randomDoubles : Nat → MT.State → List Dbl × MT.State
   | n + 1, s =>
     let (a, s1) := mtNext s
     let (b, s2) := mtNext s1
-    let x : Dbl := ⟨((a / 32) * 67108864 + b / 64 : Nat), 9007199254740992⟩
+    -- (the generator's outputs are 32-bit words; the reduction makes that explicit in the formula)
+    let x : Dbl := ⟨(((a % 4294967296) / 32) * 67108864 + (b % 4294967296) / 64 : Nat), 9007199254740992⟩
     let (rest, s3) := randomDoubles n s2
     (x :: rest, s3)
 
